@@ -49,6 +49,11 @@ ControlProbes ==
     { Probe("for-range", <<>>, <<>>, <<For("i", Range(I(c[1]), I(c[2]), incl, IF c[3] = 0 THEN Absent ELSE I(c[3])), <<P(V("i"))>>), P(StrL("end"))>>, FALSE)
       : c \in RangeCases, incl \in BOOLEAN }
   \cup { Probe("for-range-vars", <<>>, <<DI("lo", 1), DI("hi", 4)>>, <<For("i", Range(V("lo"), Bin("+", V("hi"), I(1)), incl, Absent), <<P(Bin("*", V("i"), V("i")))>>)>>, FALSE) : incl \in BOOLEAN }
+  \* steps that are not literals: the direction of the range is only known at run time
+  \cup { Probe("for-range-step-expr", <<>>, <<DI("s", q[1])>>, <<For("i", Range(I(q[3]), I(q[4]), incl, q[2]), <<P(V("i"))>>), P(StrL("end"))>>, FALSE)
+         : incl \in BOOLEAN,
+           q \in { <<2, V("s"), 0, 6>>, <<-2, V("s"), 6, 0>>, <<-2, Neg(V("s")), 0, 6>>, <<2, Neg(V("s")), 6, 0>>, <<1, Neg(Neg(V("s"))), 0, 3>>,
+                   <<3, Bin("-", I(0), V("s")), 7, 0>>, <<-3, Bin("-", I(0), V("s")), 0, 7>>, <<2, Bin("*", V("s"), Neg(I(1))), 5, 1>>, <<1, Bin("+", V("s"), I(1)), 0, 6>> } }
   \cup { Probe("for-list", <<>>, <<Def("l", TRUE, "", ListL(<<I(3), I(1), I(2)>>))>>, <<For("e", V("l"), <<P(Bin("*", V("e"), I(2)))>>)>>, FALSE) }
   \cup { Probe("for-accumulate", <<>>, <<DI("acc", 0)>>, <<For("i", Range(I(1), I(4), TRUE, Absent), <<Assign("acc", Bin("+", V("acc"), V("i")))>>), P(V("acc"))>>, TRUE) }
   \cup { Probe("while", <<>>, <<DI("n", 3)>>, <<While(Bin(">", V("n"), I(0)), <<P(V("n")), Assign("n", Bin("-", V("n"), I(1)))>>), P(V("n"))>>, TRUE) }
